@@ -489,4 +489,30 @@ theorem accepted_batch_service_class (name : String) (P : Prog) (hm : (name, P) 
   have hcd := creditOrDebit_exec { c with recv := elemPath p i } (tc i) (h2 i hi).1 (h2 i hi).2 (ht i hi)
   exact validTranCode_accepts c (elemPath p i) hp (tc i) s _ hflag (ht i hi) hH hs hcd hcall
 
+
+/-- the two notions of direction in the validation code agree: every code `calculateBatchAmounts` adds to the credit total
+is a credit by `EntryDetail.CreditOrDebit` (second digit 1–4), every code it adds to the debit total a debit — so a
+credits-only batch accepted by `ValidTranCodeForServiceClassCode` has a zero debit total, and the reverse
+(C03; also the classification C11 and C13 rest on) -/
+theorem creditOrDebit_agrees_with_amount_lists :
+    Ach.Props.AcceptedAmounts.creditCodes.all (fun t => creditOrDebitOf t == ['C']) = true ∧
+    Ach.Props.AcceptedAmounts.debitCodes.all (fun t => creditOrDebitOf t == ['D']) = true ∧
+    (Ach.Props.AcceptedAmounts.creditCodes ++ Ach.Props.AcceptedAmounts.debitCodes).all (fun t => twoDigit.contains t) = true := by
+  decide +kernel
+
+/-- hence in an accepted credits-only batch no entry counts towards the debit total, and the reverse -/
+theorem credit_entry_has_no_debit_part (t a : Int) (h : creditOrDebitOf t = ['C']) :
+    Ach.Props.AcceptedAmounts.debitPart t a = 0 ∨ Ach.Props.AcceptedAmounts.creditCodes.contains t = true := by
+  unfold Ach.Props.AcceptedAmounts.debitPart
+  by_cases hc : Ach.Props.AcceptedAmounts.creditCodes.contains t = true
+  · exact Or.inr hc
+  · left
+    simp only [hc]
+    by_cases hd : Ach.Props.AcceptedAmounts.debitCodes.contains t = true
+    · exfalso
+      have := List.all_eq_true.mp creditOrDebit_agrees_with_amount_lists.2.1 t (by simpa using hd)
+      simp [h] at this
+    · have hnm : t ∉ Ach.Props.AcceptedAmounts.debitCodes := by simpa using hd
+      simp [hnm]
+
 end Ach.Props.AcceptedServiceClass
